@@ -13,7 +13,7 @@ func init() {
 	register(&propDef{
 		ID: "C04",
 		Info: propInfo{
-			Technique: "table extraction of the heap comparator over all order types + who-may-call + path rules on the queue implementations",
+			Technique:   "table extraction of the heap comparator over all order types + who-may-call + path rules on the queue implementations",
 			Explanation: "Decides the finite, structural part of the dispatch order: (R04.1) the heap comparator, evaluated on all order types of (priority_i, priority_j) x (index_i, index_j) including the int64 extremes, equals 'priority ascending, then insertion index ascending'; (R04.2) the heap's Push/Pop/Swap/Less are called by nobody but container/heap, the item slice is replaced only by an empty one, and Dequeue returns the value of the item heap.Pop returned; (R04.3) Enqueue reads the tie index from the insertion counter and increments the counter exactly once before heap.Push on every accepting path, and the counter is otherwise only reset together with emptying the heap; (R04.4) FIFO segments: Chunk.Push writes the slot then advances behind a correct full test, Chunk.Pop reads the slot before clearing/advancing behind a correct empty test and returns what it read; Queue.Enqueue links the new segment before switching to it and creates one only after a failed Push; Queue.Dequeue advances to the next segment only after a failed Pop and returns an item only after a successful one, with one count per item; (R04.5) one consumer (R01.1).",
 			NotDecided:  []string{"that these pieces compose to FIFO / heap order for every queue length and priority multiset (run-time arithmetic over unbounded sizes)", "order among concurrent producers beyond mutual exclusion of Enqueue", "user-supplied adapters"},
 			Assumptions: []string{"container/heap implements a binary heap correctly for a consistent Less", "int is 64 bit"},
